@@ -1001,6 +1001,13 @@ def install(P, max_split=4):
             return NONE
         return Some(clone_val(deref(r.fields[0])))
 
+    @P.summary("Result::cloned", "Result::copied")
+    def _rcloned(ctx, c):
+        r = deref(c.args[0])
+        if r.variant == "Err":
+            return r
+        return Ok(clone_val(deref(r.fields[0])))
+
     @P.summary("Option::unwrap", "Option::expect")
     def _ounwrap(ctx, c):
         r = deref(c.args[0])
